@@ -11,7 +11,7 @@ R-TZDROP    datetime front-end: tzinfo is dropped only after astimezone().
 """
 import ast
 
-from ..engine import AnalysisError, dotted, iter_stmts, norm, walk_expr, parent_chain
+from ..engine import AnalysisError, dotted, iter_stmts, norm, walk_expr, parent_chain, kw
 from ..prov import Prov, is_input
 from ..report import Finding
 from .. import api
@@ -181,6 +181,10 @@ def run(ctx):
         ctx.violation(Finding('R-EXACT', RP, q, ex.body[0],
                               "method='exact' must mask every value that is not equal to a coordinate; the mask is "
                               'computed with %s' % (tol or 'no exact-membership primitive')))
+    elif any(isinstance(c, ast.Call) and (dotted(c.func) or '').split('.')[-1] in ('isin', 'in1d') and
+             any(k.arg == 'assume_unique' and not (isinstance(k.value, ast.Constant) and k.value.value is False) for k in c.keywords) for c in walk_expr(ex)):
+        ctx.violation(Finding('R-EXACT', RP, q, ex.body[0], 'the membership test is called with assume_unique: that also applies to the requested values, which may repeat; a value that is not a '
+                              'coordinate value and occurs more than once is then reported as a member for all but one of its occurrences'))
     else:
         ctx.ok('R-EXACT', 'val2idx exact branch', where, 'mask from exact membership (%s)' % (exact[0] if isinstance(exact[0], str) else '=='))
     # R-MASKKEEP: the mask put on by method='exact' (and clean='mask') must survive to the returned index
@@ -281,6 +285,21 @@ def run(ctx):
         ctx.ok('R-QUERYDTYPE', 'val', w17, '%d conversions of %s, none with a dtype taken from the coordinate' % (len(conv), par0))
     else:
         ctx.undec('R-QUERYDTYPE', 'val', w17, 'no array conversion of the request found')
+    # ---- R-RANGECHECK: every way out of val2idx with a result passes the out-of-range block
+    ctx.rule('R-RANGECHECK', "val2idx: no return before the out-of-range test (bounds='warn' / 'error' apply to every method)")
+    rb = [st for st in iter_stmts(v2.body) if isinstance(st, ast.If) and 'bounds' in norm(st.test) and "'ignore'" in norm(st.test)]
+    if not rb:
+        ctx.undec('R-RANGECHECK', 'range block', w17, "the `bounds != 'ignore'` block was not found")
+    else:
+        order = list(iter_stmts(v2.body))
+        pos = order.index(rb[-1])
+        early = [st for st in order[:pos] if isinstance(st, ast.Return)]
+        if early:
+            g_ = [p_ for p_ in parent_chain(early[0]) if isinstance(p_, ast.If)]
+            ctx.violation(Finding('R-RANGECHECK', RP, 'PseudoNetCDFFile.val2idx', early[0], 'val2idx returns here%s before the out-of-range test: for those calls bounds=\'error\' no longer raises and bounds=\'warn\' '
+                                  'no longer warns for values outside the domain' % ((' (when %s)' % norm(g_[0].test)[:40]) if g_ else '')))
+        else:
+            ctx.ok('R-RANGECHECK', 'range block', w17, 'no return among the %d statements before the out-of-range test' % pos)
     # ---- R-EDGECLAMP: method='bounds': the interpolated cell index is clamped to the last cell *after* the interpolation
     ctx.rule('R-EDGECLAMP', "val2idx(method='bounds'): a value on the closing edge (index n on the edge axis) is clamped to cell n-1 after np.interp")
     nb, unclamped, clamped = 0, None, None
@@ -341,7 +360,24 @@ def run(ctx):
                     csrc = (alias.get(norm(n.args[0]), norm(n.args[0])), st)
                 if isinstance(n, ast.Attribute) and n.attr == 'calendar':
                     csrc = (alias.get(norm(n.value), norm(n.value)), st)
-    if usrc is None or csrc is None:
+    # the value handed on as calendar= must have been looked up under the attribute name 'calendar'
+    wrongkey = None
+    for c in ast.walk(d2):
+        # date2num(dates, units, calendar) of netCDF4 / cftime: third positional argument or calendar=
+        carg = None
+        if isinstance(c, ast.Call) and (dotted(c.func) or '').split('.')[-1] == 'date2num':
+            carg = kw(c, 'calendar') if kw(c, 'calendar') is not None else (c.args[2] if len(c.args) > 2 else None)
+        cnames = [n_.id for n_ in ast.walk(carg) if isinstance(n_, ast.Name)] if carg is not None else []
+        for cn in cnames:
+            for st in iter_stmts(d2.body):
+                if isinstance(st, ast.Assign) and isinstance(st.targets[0], ast.Name) and st.targets[0].id == cn:
+                    for n in ast.walk(st.value):
+                        if isinstance(n, ast.Call) and dotted(n.func) == 'getattr' and len(n.args) >= 2 and isinstance(n.args[1], ast.Constant) and n.args[1].value != 'calendar':
+                            wrongkey = (n.args[1].value, st)
+    if wrongkey is not None:
+        ctx.violation(Finding('R-CALSRC', RP, 'PseudoNetCDFFile.date2num', wrongkey[1], "the calendar handed to the conversion is looked up under the attribute name %r, which no time variable carries (CF: 'calendar'): "
+                              'the default calendar is always used and dates of 365/366-day calendars convert to shifted numbers' % wrongkey[0]))
+    elif usrc is None or csrc is None:
         ctx.undec('R-CALSRC', 'date2num', w18, 'units / calendar reads not found')
     elif usrc == csrc[0]:
         ctx.ok('R-CALSRC', 'date2num', w18, 'both from %s' % usrc)
